@@ -4624,8 +4624,10 @@ XPath::predicates(
                     m_expression.getNumberLiteral(m_expression.getOpCodeMapValue(predOpPos + 2));
 
                 // If the index is out of range, or not an integer, just clear subQueryResults...
+                // (Compare as doubles first: converting a value that is out of the
+                // range of size_type is undefined behaviour.)
                 if (theIndex <= 0.0 ||
-                    NodeRefListBase::size_type(theIndex) > theLength ||
+                    theIndex > double(theLength) ||
                     double(NodeRefListBase::size_type(theIndex)) != theIndex)
                 {
                     subQueryResults.clear();
